@@ -99,7 +99,15 @@ class Check:
         """Instance floors confirmed by hand: falling below is an analysis error, never a pass."""
         self.floors.append((what, got, at_least))
         if got < at_least:
+            # deferred to the end of the run: a violation found by a later rule explains the changed count and takes precedence
+            self.__dict__.setdefault("unmet_floors", []).append((what, got, at_least))
+
+    def raise_unmet_floors(self) -> None:
+        """Called once all rules have run: an unmet floor makes a run without findings inconclusive (never a pass)."""
+        unmet = self.__dict__.get("unmet_floors") or []
+        if unmet and not self.split_findings()[0]:
             from .loader import AnalysisError
+            what, got, at_least = unmet[0]
             raise AnalysisError(f"instance floor: {what}: found {got}, confirmed by reading >= {at_least} "
                                 f"(a rule that matches fewer sites than exist would pass vacuously)")
 
